@@ -198,6 +198,12 @@ def fermat_two_halfspaces(p, q, pos, s1, s2, axis, nd):
     return best
 
 
+# Two half-spaces are represented exactly by the cell model, so the solver may be late by a first-order amount but
+# is early only marginally: worst case on the unchanged tree over 1800 cases 0.30 cell-crossing times.  A constant
+# gradient is only sampled at cell centres, so early and late errors are alike there (no early clause).
+EARLY_MAX = {"halves": 0.45, "gradient": 9.9}
+
+
 def oracle_C02(rs, n, ctx):
     R = Result()
     for it in range(n):
@@ -256,6 +262,7 @@ def oracle_C02(rs, n, ctx):
             d = gens.rand_spacing(rs, nd)
         o = [0.0] * nd
         errs = []
+        early = []
         srel, scls = gens.rand_source_rel(rs, cells, d, cls=rs.choice(["node", "interior", "line", "kd"]))
         if kind == "halves":
             ax = int(rs.randint(nd))
@@ -310,13 +317,19 @@ def oracle_C02(rs, n, ctx):
             smax = float((1 / v).max())
             e = np.abs(tt.grid - exact) / (max(d2) * smax)
             errs.append(float(e.max()))
+            early.append(float(((exact - tt.grid) / (max(d2) * smax)).max()))
         if errs is None or len(errs) < 2:
             R.case(("skipped", kind))
             continue
         R.case((kind, nd, cells, d, scls), {"kind": kind, "nd": nd, "cells": list(cells), "d": list(d), "src": list(srel), "err_cells": errs})
         R.maxstat(f"{kind}_max_err_in_cell_times", errs[0])
+        R.maxstat(f"{kind}_max_early_in_cell_times", max(early))
+        # a first-arrival solver may be late by a first-order amount but is early (faster than the exact first arrival)
+        # only marginally: measured worst case on the unchanged tree over thousands of cases is in EARLY_MAX's comment
+        if max(early) > EARLY_MAX[kind]:
+            R.violate(f"C02:{kind}-early", f"traveltime earlier than the exact first arrival by {max(early):.3f} cell-crossing times (bound {EARLY_MAX[kind]})", rep)
         # first-order bound: error below C cell-crossing times (C fixed from a calibration on the repaired tree)
-        C = {"halves": 1.5, "gradient": 0.75}[kind]
+        C = {"halves": 1.5, "gradient": 1.0}[kind]   # worst cases seen on the unchanged tree: 0.67 and 0.78
         if errs[0] > C or errs[1] > C:
             R.violate(f"C02:{kind}-bound", f"error {errs} cell-crossing times exceeds first-order constant {C}", rep)
         # absolute error decreases under refinement: err2*(h/2) < err1*h  (allow the plateau of tiny errors)
@@ -383,6 +396,19 @@ def oracle_C03(rs, n, ctx):
             R.violate("C03:metadata", "spacing/origin not carried", rep)
         if not np.array_equal(np.asarray(tt.source), src):
             R.violate("C03:metadata", "source not carried", rep)
+        if it % 3 == 0:
+            # the list form carries the same metadata per item
+            src2 = abs_source(o, gens.rand_source_rel(rs, cells, d, cls="interior")[0], d, cells)
+            try:
+                lst = eik(nd)(v, d, o).solve(np.array([src, src2]))
+                for k_, (t_, s_) in enumerate(zip(lst, (src, src2))):
+                    if not (np.array_equal(np.asarray(t_.source), s_) and tuple(t_.gridsize) == tuple(d)
+                            and np.array_equal(t_.origin, np.asarray(o)) and tuple(t_.grid.shape) == tuple(c + 1 for c in cells)):
+                        R.violate("C03:list-metadata", f"item {k_} of a list solve does not carry the given source / spacing / origin / shape", rep)
+                if not np.array_equal(lst[0].grid, g) or float(lst[0]._vzero) != float(tt._vzero):
+                    R.violate("C03:list-metadata", "item 0 of a list solve differs from the single solve", rep)
+            except Exception as ex:  # noqa: BLE001
+                R.violate(f"C03:raises:{type(ex).__name__}", f"list solve raised {type(ex).__name__}: {ex}", rep)
         ci = [min(int(eff[a] / d[a]), cells[a] - 1) for a in range(nd)]
         cands = set()
         for a_ in itertools.product(*[(0, -1, 1) for _ in range(nd)]):
